@@ -364,12 +364,8 @@ const globSafe = "abcdefgxyzABC0123456789.-_/:~%=&@,;!# "
 // a glob derived from the text: literal pieces kept, runs replaced by '*', characters by '?'
 func genGlobFor(r *rng.R, s string) string {
 	var sb strings.Builder
-	// the model's matcher (and the reference glob) explore every way of splitting the text among
-	// the stars: keep the number of stars small on long texts
-	stars := 3
-	if len(s) > 16 {
-		stars = 2
-	}
+	// no cap that matters: model matcher and oracle evaluate on position sets (polynomial)
+	stars := 12
 	for i := 0; i < len(s); {
 		k := r.Intn(8)
 		if k == 0 && stars == 0 {
@@ -631,7 +627,8 @@ func corpusE() []ECase {
 	for _, t := range []Tree{
 		show("shExpMatch", Lit("a.b"), Lit("a.b")), show("shExpMatch", Lit("axb"), Lit("a.b")), show("shExpMatch", Lit("abc"), Lit("a**c")),
 		show("shExpMatch", Lit(""), Lit("*")), show("shExpMatch", Lit("a"), Lit("")), show("shExpMatch", Arg{K: "url"}, Lit("http://*.example.com/*")),
-		show("shExpMatch", Lit("ab"), Lit("a?")), show("shExpMatch", Lit("a"), Lit("a?")), show("shExpMatch", Lit("a+b"), Lit("a+b")),
+		show("shExpMatch", Lit("ab"), Lit("a?")), show("shExpMatch", Arg{K: "url"}, Lit("*t*p*:*/*w*.*e*a*.*c*m*/*a*.*b*z")),
+		show("shExpMatch", Arg{K: "url"}, Lit("*t*p*:*/*w*.*e*a*.*c*m*/*a*.*b*")), show("shExpMatch", Lit("aaaaaaaaaaaaaaaaaaaaaaaaaaaaaaaaaaaaaaab"), Lit("*a*a*a*a*a*a*a*a*a*a*a*a*c")), show("shExpMatch", Lit("a"), Lit("a?")), show("shExpMatch", Lit("a+b"), Lit("a+b")),
 		show("isInNet", Lit("200.1.2.3"), Lit("200.0.0.0"), Lit("255.0.0.0")), show("isInNet", Lit("128.0.0.1"), Lit("0.0.0.1"), Lit("127.255.255.255")),
 		show("isInNet", Lit("hi.test"), Lit("200.1.0.0"), Lit("255.255.0.0")), show("isInNet", Lit("010.1.2.3"), Lit("10.0.0.0"), Lit("255.0.0.0")),
 		show("isInNet", Lit("1.2.3.4"), Lit("9.9.9.9"), Lit("0.0.0.0")), show("isInNet", Lit("nope.test"), Lit("9.9.9.9"), Lit("0.0.0.0")),
